@@ -17,6 +17,7 @@
    tracer tables, the debug agent's process list, goroutines. *)
 From Coq Require Import List Arith NArith Bool Lia.
 From Uf Require Import Process.Local Process.LocalProofs.
+From Uf Require Import Packet.Writer Node.Tracer Node.Spec Node.Refine Node.Residue.
 Import ListNotations.
 
 (* no interleaving wedges: unless every thread has returned, some thread can take a step
@@ -72,3 +73,16 @@ Example C05_ex :
   map cont (threads st) = [[]; []] /\ count_inits 0 (log st) = 1 /\
   eager st = [] /\ lazy st = [] /\ shooks st = [] /\ pents st = [] /\ alive (get_proc st 0) = false.
 Proof. vm_compute. repeat split; reflexivity. Qed.
+
+(* the tracer of a node: once every request it has read is answered and no written packet is outstanding, it holds
+   nothing - for every call sequence that keeps the node discipline (C02; the real nodes' sequences are checked) *)
+Theorem C05_tracer_no_residue : forall ops, disciplined ops = true ->
+  s_reader (s_run ops) = [] -> s_wr (s_run ops) = [] ->
+  (forall r, lst (nget r (t_reads (t_run ops))) = []) /\
+  (forall w, lst (nget w (t_writes (t_run ops))) = []) /\
+  (forall p, nget p (t_receives (t_run ops)) = None) /\
+  (forall p, nget p (t_targets (t_run ops)) = None) /\
+  (forall p, nget p (t_sources (t_run ops)) = None) /\
+  t_reader (t_run ops) = [].
+Proof. exact tracer_no_residue. Qed.
+Print Assumptions C05_tracer_no_residue.
